@@ -69,3 +69,25 @@ def fields_read(t, base):
         if s[0] == "field" and s[1] == base:
             out.add(s[2])
     return out
+
+
+AC_OPS = {"BitAnd", "BitOr", "BitXor", "Add", "Mul"}
+
+
+def acnorm(t):
+    """Associative-commutative normal form: nested same-op applications are flattened and sorted, so harmless
+    reassociation / reordering of operands does not change the term."""
+    if not isinstance(t, tuple) or not t:
+        return t
+    if t[0] == "bin" and t[1] in AC_OPS:
+        ops = []
+
+        def collect(x):
+            if isinstance(x, tuple) and x and x[0] == "bin" and x[1] == t[1]:
+                collect(x[2])
+                collect(x[3])
+            else:
+                ops.append(acnorm(x))
+        collect(t)
+        return ("ac", t[1], tuple(sorted(ops, key=repr)))
+    return tuple(acnorm(x) if isinstance(x, tuple) else x for x in t)
